@@ -225,6 +225,9 @@ def groups (by_ : List Nat) (rows : List Row) : List (Row × List Row) :=
 /-! ### window functions (C04) -/
 
 inductive WinFn | sum | count | min | max | rowNumber | rank | rankDense | lag (n : Nat) | lead (n : Nat) | first | last
+  /- the three below reproduce RECORDED DEFECTS of the unchanged compiler (known findings of C04); they are used only to
+     recognise those findings, never as the reference: windowed SUM without COALESCE, FIRST/LAST_VALUE under SQL's implicit frame -/
+  | sumNull | firstImplicit | lastImplicit
   deriving DecidableEq, Repr
 
 /-- frame in ROWS mode relative to the current row: `lo..hi` offsets (none = unbounded) -/
@@ -251,6 +254,10 @@ def frameSlice (fr : Option Frame) (i : Nat) (part : List Row) : List Row :=
     let hi : Int := match f.hi with | none => (part.length : Int) - 1 | some d => min ((part.length : Int) - 1) ((i : Int) + d)
     if hi < lo then [] else (part.drop lo.toNat).take (hi - lo + 1).toNat
 
+/-- SQL's implicit frame: whole partition without ORDER BY, else up to and including the peers of the current row -/
+def implicitFrame (order : List SortKey) (cur : Row) (part : List Row) : List Row :=
+  if order.isEmpty then part else part.filter fun r => cmpKeys order r cur != .gt
+
 def winVal (w : Window) (part : List Row) (i : Nat) : Value :=
   let cur := part.getD i []
   match w.fn with
@@ -262,6 +269,11 @@ def winVal (w : Window) (part : List Row) (i : Nat) : Value :=
   | .first => match frameSlice w.frame i part with | [] => .null | r :: _ => w.arg.eval r
   | .last => match (frameSlice w.frame i part).getLast? with | none => .null | some r => w.arg.eval r
   | .sum => aggVal .sum ((frameSlice w.frame i part).map w.arg.eval)
+  | .sumNull =>
+    let vs := ((frameSlice w.frame i part).map w.arg.eval).filter (· != .null)
+    if vs.isEmpty then .null else aggVal .sum vs
+  | .firstImplicit => match implicitFrame w.order cur part with | [] => .null | r :: _ => w.arg.eval r
+  | .lastImplicit => match (implicitFrame w.order cur part).getLast? with | none => .null | some r => w.arg.eval r
   | .count => aggVal .count ((frameSlice w.frame i part).map w.arg.eval)
   | .min => aggVal .min ((frameSlice w.frame i part).map w.arg.eval)
   | .max => aggVal .max ((frameSlice w.frame i part).map w.arg.eval)
@@ -295,7 +307,7 @@ inductive Tr
   | groupAgg (by_ : List Nat) (aggs : List Agg)   -- group by_ (aggregate aggs): keys ++ aggregates, one row per key
   | groupTake (by_ : List Nat) (ks : List SortKey) (lo hi : Option Nat)   -- group by_ (sort ks | take lo..hi)
   | groupSort (by_ : List Nat) (ks : List SortKey)                         -- group by_ (sort ks): no observable effect
-  | window (ws : List Window)                     -- derive of windowed columns (appended)
+  | window (by_ : List Nat) (ws : List Window)    -- (group by_)? derive of windowed columns (appended; a group moves its keys first)
   | join (side : JoinSide) (right : Src) (leftWidth rightWidth : Nat) (cond : Expr)   -- cond over left ++ right
   | append (right : Src)
   deriving Repr
@@ -355,9 +367,13 @@ def step (resolve : Src → Table) (t : Table) : Tr → Table
     let reorder (r : Row) : Row := keyOf by_ r ++ ((List.range r.length).filter (fun i => !by_.contains i)).map fun i => r.getD i .null
     { rows := gs.flatMap fun (_, rs) => (takeRange lo hi (sortRows ks rs)).map reorder, ambig := t.ambig || amb }
   | .groupSort _ _ => { t with sorted := false, ties := false }
-  | .window ws =>
+  | .window by_ ws =>
     let cols := ws.map fun w => winColumn w t.rows
-    { t with rows := (List.range t.rows.length).map fun i => t.rows.getD i [] ++ cols.map fun c => c.getD i .null }
+    let reorder (r : Row) : Row :=
+      if by_.isEmpty then r
+      else keyOf by_ r ++ ((List.range r.length).filter (fun i => !by_.contains i)).map fun i => r.getD i .null
+    { t with rows := (List.range t.rows.length).map fun i => reorder (t.rows.getD i []) ++ cols.map fun c => c.getD i .null,
+             sorted := t.sorted && by_.isEmpty, ties := t.ties }
   | .join side right lw rw cond =>
     let r := resolve right
     -- a left row matched by several right rows: their relative order is not specified by the left sort
